@@ -4,7 +4,7 @@ import random
 POOL = ['a', 'b', 'c', 'd', 'e']
 
 
-def gen_transform(rng, idx, pool=POOL, allow_params=True, allow_opt=True, avail=None, p_avail=0.85, p_opt=0.3):
+def gen_transform(rng, idx, pool=POOL, allow_params=True, allow_opt=True, avail=None, p_avail=0.85, p_opt=0.3, ghost=()):
     """`avail`: names the previous layers expose; arguments are mostly drawn from them (mostly-valid stacks)"""
     cls = f'T{idx}'
     n_out = rng.choice([0, 1, 1, 2, 2, 3])
@@ -36,6 +36,9 @@ def gen_transform(rng, idx, pool=POOL, allow_params=True, allow_opt=True, avail=
     fields = {}
     for o in outs:
         args = sample(rng.choice([0, 1, 1, 2, 2]))
+        if ghost and rng.random() < 0.2:
+            # a field that an earlier layer defined and that was left out quietly since (optional, unreachable input)
+            args = [rng.choice(sorted(ghost))] + [a for a in args[:1] if a not in ghost]
         if o == 'id':
             args = ['id'] + [a for a in args[:1] if a != 'id']
         for p in params:
@@ -88,6 +91,7 @@ def gen_stack(rng, max_layers=6, source=None, caches=True, p_avail=0.85, p_opt=0
     for i in range(n):
         r = rng.random()
         avail = None
+        defined = {f for l in layers for f in l.get('fields', {})}
         if layers:
             try:
                 res = refsem.resolve({'k': 'chain', 'layers': layers})
@@ -96,11 +100,14 @@ def gen_stack(rng, max_layers=6, source=None, caches=True, p_avail=0.85, p_opt=0
                     avail |= {x for x in POOL if res['virt'](x)}
             except Exception:
                 avail = None
-        if caches and layers and r < 0.15:
+        ghost = sorted(defined - avail) if avail is not None else ()
+        prev_ghost = bool(layers) and any(a in defined and avail is not None and a not in avail
+                                          for sp in layers[-1].get('fields', {}).values() for a in sp['args'])
+        if caches and layers and (r < 0.15 or (prev_ghost and r < 0.6)):
             layers.append({'k': 'ram', 'names': rng.choice([None, rng.sample(POOL, 2)]), 'size': rng.choice([None, 2])})
         elif r < 0.22:
             names = rng.sample(POOL, rng.choice([1, 2]))
             layers.append({'k': 'apply', 'fns': {nm: f'ap{i}.{nm}' for nm in names}})
         else:
-            layers.append(gen_transform(rng, i + 1, avail=avail, p_avail=p_avail, p_opt=p_opt))
+            layers.append(gen_transform(rng, i + 1, avail=avail, p_avail=p_avail, p_opt=p_opt, ghost=ghost))
     return {'k': 'chain', 'flavour': 'chain', 'layers': layers}
